@@ -18,7 +18,9 @@ def run_job(job):
     from kingdon import MultiVector
     rng = random.Random(job['seed'])
     u = job['u']
-    alg = K.make_algebra(u)
+    from drive_ops import algebra_options, full_opts
+    opts = job.get('opts', {})
+    alg = K.make_algebra(u, **algebra_options(opts))
     d, sgn = pyref.sign_table(u)
     nb = 2 ** d
     events, skipped = [], []
@@ -206,7 +208,7 @@ def run_job(job):
             events.append(base)
         except (K.EncodeError, OverflowError, ValueError, ZeroDivisionError) as e:
             skipped.append([eid, kind, str(e)[:80]])
-    K.write_trace(job['out'], {'kind': 'cfg', 'u': u, 'opts': {'cse': True, 'graded': False, 'wrapper': False, 'symbolcls': '', 'pretty_blade': ''}}, events)
+    K.write_trace(job['out'], {'kind': 'cfg', 'u': u, 'opts': full_opts(opts)}, events)
     return {'out': job['out'], 'events': len(events), 'skipped': skipped}
 
 
